@@ -354,7 +354,11 @@ func (x *Block) UnmarshalCBOR(data []byte) error {
 	}
 	// fifth is the meta SlotMeta
 	if meta, ok := arr.Get(4); ok {
-		metaArr := _array(meta.([]interface{}))
+		metaList, ok := meta.([]interface{})
+		if !ok {
+			return fmt.Errorf("expected meta to be []interface{}, got %T", meta)
+		}
+		metaArr := _array(metaList)
 		var m SlotMeta
 		if parentSlot, ok := metaArr.Get(0); ok {
 			parentSlot, err := getUint64FromInterface(parentSlot)
